@@ -106,7 +106,8 @@ def adv_check(pid, tier, replay, plan):
     # 5b. conformance of the recorded traces with the implementation-shaped model itself
     conf = {"checked": 0, "deviations": [], "runs": []}
     if plan.get("conformance", True) and not os.environ.get("VERIF_NO_CONFORMANCE"):
-        nconf, dev, cstats = adv.conformance(tmp, outs, pid, max_scen=int(os.environ.get("VERIF_CONF_MAX", 1500 if thorough else 60)))
+        nconf, dev, cstats = adv.conformance(tmp, outs, pid, max_scen=int(os.environ.get("VERIF_CONF_MAX", 1500 if thorough else 25)),
+                                              budget_s=1500 if thorough else 45)
         conf = {"checked": nconf, "deviations": dev[:50], "n_deviations": len(dev), "runs": cstats}
         for d in dev[:10]:
             print("MODEL-DEVIATION property=%s scenario=%s (the trace is not a behaviour of Advertiser.tla; not a verdict)" % (pid, d))
